@@ -304,6 +304,15 @@ GENERATED = {
                        ("cmd/recompute-cache/recompute-cache.go", "computeCacheHash", "gen_recompute_cache_key"),
                        ("tile.go", "MerkleTreeLeaf", "gen_merkle_tree_leaf"),
                        ("tile.go", "AppendTileLeaf", "gen_append_tile_leaf")],
+    # builders found inside larger functions (translation starts at the declaration of the builder) and
+    # MarshalExtensions with its range guard
+    "Gen/Builders2.v": [("internal/ctlog/ctlog.go", "digitallySign", "gen_digitally_sign", "fragment"),
+                        ("checkpoint.go", "NewRFC6962InjectedSigner", "gen_injected_blob", "fragment"),
+                        ("extensions.go", "MarshalExtensions", "gen_marshal_extensions")],
+    # cryptobyte.String reader code (translate/reader.go): decision trees over a generated state record
+    "Gen/Readers.v": [("tile.go", "readTileLeaf", "gen_rtl", "reader"),
+                      ("checkpoint.go", "NewRFC6962Verifier", "gen_nsig", "reader"),
+                      ("checkpoint.go", "RFC6962SignatureTimestamp", "gen_sigts", "reader")],
 }
 
 
@@ -321,7 +330,7 @@ def regenerate(res=None, prop=None):
         for rel, specs in GENERATED.items():
             target = os.path.join(COQ, rel)
             tmp = target + ".new"
-            args = [exe, tmp] + ["%s:%s:%s" % (os.path.join(REPO, g), f, n) for (g, f, n) in specs]
+            args = [exe, tmp] + [":".join((os.path.join(REPO, sp[0]),) + tuple(sp[1:])) for sp in specs]
             rc, out, dt = run(args, timeout=120)
             if rc != 0:
                 if os.path.exists(tmp):
